@@ -1934,4 +1934,286 @@ theorem workers_partition_chunks' {α} (mc : Nat) (assign : List Nat) (chunks : 
     (retire mc (livesOf assign chunks)).flatten ~ chunks := by
   rw [retire_flatten]; exact livesOf_flatten assign chunks
 
+
+/-! ## phase 3: resumed runs -/
+
+theorem makeAux_filter (cnt : Nat → Nat) (R : Restored) : ∀ (ts : List Triple) (envs lrns vals : List Nat),
+    makeAux cnt R envs lrns vals ts = (makeAux cnt .none envs lrns vals ts).filter (Task.keep R)
+  | [], _, _, _ => by simp [makeAux]
+  | (e, l, v) :: ts, envs, lrns, vals => by
+    have ih := makeAux_filter cnt R ts (addFirst envs e) (addFirst lrns l) (addFirst vals v)
+    simp only [makeAux, Restored.none, not_mem_nil, if_false, filter_append, ih]
+    congr 1
+    · by_cases h : e ∈ envs <;> by_cases h2 : envs.length ∈ R.envs <;> simp [h, h2, Task.keep]
+    congr 1
+    · by_cases h : l ∈ lrns <;> by_cases h2 : lrns.length ∈ R.lrns <;> simp [h, h2, Task.keep]
+    congr 1
+    · by_cases h : v ∈ vals <;> by_cases h2 : vals.length ∈ R.vals <;> simp [h, h2, Task.keep]
+    congr 1
+    · by_cases h : ((addFirst envs e).idxOf e, (addFirst lrns l).idxOf l, (addFirst vals v).idxOf v) ∈ R.outs <;>
+        simp [h, Task.keep]
+
+/-- `MakeTasks` with a restored Result lists the tasks of the fresh run minus the restored ones -/
+theorem makeTasks_restored (R : Restored) (ts : List Triple) :
+    makeTasks R ts = (makeTasks .none ts).filter (Task.keep R) := makeAux_filter _ R ts [] [] []
+
+theorem chunksOn_flatten {S P Row} (c : Comps S P Row) (cfg : Cfg) (tasks : List Task) :
+    (chunksOn c cfg tasks).flatten ~ tasks :=
+  (flatten_map_perm procOrder procOrder_perm _).trans (chunkTasks_flatten _ _ _)
+
+/-- the events of any task list that never re-uses a learner cell after an in-place evaluation -/
+theorem runEventsOn_perm {S P Row} (c : Comps S P Row) (cfg : Cfg) (picks : List Nat) (seed : Nat)
+    (tasks : List Task) (hA : AtMostOnce tasks) :
+    (runEventsOn c cfg picks seed tasks).1 ~ tasks.map (pristineEv c seed) := by
+  have hflat := chunksOn_flatten c cfg tasks
+  have hAll : AtMostOnce (chunksOn c cfg tasks).flatten := hA.perm hflat.symm
+  unfold runEventsOn
+  by_cases hm : cfg.multi = true
+  · simp only [hm, if_true]
+    refine (interleave_perm _ _).trans ?_
+    rw [flatten_map_runSeq c seed _ (fun ch hch => hAll.sublist (sublist_flatten_of_mem hch))]
+    exact hflat.map _
+  · have hm' : cfg.multi = false := by simpa using hm
+    simp only [hm', Bool.false_eq_true, if_false]
+    rw [runSeq_pristine c seed _ c.init (fun _ _ _ _ => rfl) hAll.noReuse]
+    exact hflat.map _
+
+/-- tag + key of a task (the key of the record it yields) -/
+def Task.tkey : Task → Nat × Key3
+  | .env i _ => (1, (i, 0, 0))
+  | .lrn i _ => (2, (i, 0, 0))
+  | .val i _ => (3, (i, 0, 0))
+  | .eval ei _ li _ vi _ _ => (4, (ei, li, vi))
+
+set_option linter.unnecessarySeqFocus false in
+theorem pristineRec_rkey {S P Row} (c : Comps S P Row) (seed : Nat) (t : Task) (r : Rec P Row)
+    (h : pristineRec c seed t = some r) : r.rkey = t.tkey := by
+  cases t with
+  | env i e => rw [pristineRec_env] at h; cases hp : c.envParams e <;> simp_all [Rec.rkey, Task.tkey] <;> subst h <;> rfl
+  | lrn i e => rw [pristineRec_lrn] at h; cases hp : c.lrnParams e <;> simp_all [Rec.rkey, Task.tkey] <;> subst h <;> rfl
+  | val i e => rw [pristineRec_val] at h; cases hp : c.valParams e <;> simp_all [Rec.rkey, Task.tkey] <;> subst h <;> rfl
+  | eval ei e li l vi v cp =>
+    rw [pristineRec_eval] at h; cases hp : evalS c seed (e, l, v) <;> simp_all [Rec.rkey, Task.tkey] <;> subst h <;> rfl
+
+/-- in the task list of a fresh run a task is determined by its tag and key -/
+theorem tkey_inj {ts : List Triple} {t t' : Task} (ht : t ∈ makeTasks .none ts) (ht' : t' ∈ makeTasks .none ts)
+    (h : t.tkey = t'.tkey) : t = t' := by
+  cases t <;> cases t' <;> simp only [Task.tkey, Prod.mk.injEq] at h <;> try (exact absurd h.1 (by decide))
+  · obtain ⟨_, ⟨rfl, _⟩⟩ := h
+    have h1 := mem_makeTasks_env ht; have h2 := mem_makeTasks_env ht'
+    rw [idOf_inj h1.1 (h1.2.symm.trans h2.2)]
+  · obtain ⟨_, ⟨rfl, _⟩⟩ := h
+    have h1 := mem_makeTasks_lrn ht; have h2 := mem_makeTasks_lrn ht'
+    rw [idOf_inj h1.1 (h1.2.symm.trans h2.2)]
+  · obtain ⟨_, ⟨rfl, _⟩⟩ := h
+    have h1 := mem_makeTasks_val ht; have h2 := mem_makeTasks_val ht'
+    rw [idOf_inj h1.1 (h1.2.symm.trans h2.2)]
+  · obtain ⟨_, ⟨rfl, rfl, rfl⟩⟩ := h
+    have h1 := mem_makeTasks_eval ht; have h2 := mem_makeTasks_eval ht'
+    have := idKey_inj h1.1 (h1.2.1.symm.trans h2.2.1)
+    simp only [Prod.mk.injEq] at this
+    obtain ⟨rfl, rfl, rfl⟩ := this
+    rw [h1.2.2, h2.2.2]
+
+theorem keep_restoredOf {P Row} (old : List (Rec P Row)) (t : Task) :
+    Task.keep (restoredOf old) t = true ↔ ∀ r ∈ old, r.rkey ≠ t.tkey := by
+  cases t with
+  | env i e =>
+    simp only [Task.keep, Task.tkey]
+    rw [decide_eq_true_iff]
+    simp only [restoredOf]
+    constructor
+    · intro h r hr hk
+      cases r <;> simp only [Rec.rkey, Prod.mk.injEq] at hk <;> try (exact absurd hk.1 (by decide))
+      obtain ⟨_, ⟨rfl, _⟩⟩ := hk
+      exact h (mem_map.2 ⟨_, mem_filterMap.2 ⟨_, hr, rfl⟩, rfl⟩)
+    · intro h hmem
+      obtain ⟨⟨j, p⟩, hjp, rfl⟩ := mem_map.1 hmem
+      obtain ⟨r, hr, hrp⟩ := mem_filterMap.1 hjp
+      cases r <;> simp [Rec.t1?] at hrp
+      obtain ⟨rfl, rfl⟩ := hrp
+      exact h _ hr rfl
+  | lrn i e =>
+    simp only [Task.keep, Task.tkey]
+    rw [decide_eq_true_iff]
+    simp only [restoredOf]
+    constructor
+    · intro h r hr hk
+      cases r <;> simp only [Rec.rkey, Prod.mk.injEq] at hk <;> try (exact absurd hk.1 (by decide))
+      obtain ⟨_, ⟨rfl, _⟩⟩ := hk
+      exact h (mem_map.2 ⟨_, mem_filterMap.2 ⟨_, hr, rfl⟩, rfl⟩)
+    · intro h hmem
+      obtain ⟨⟨j, p⟩, hjp, rfl⟩ := mem_map.1 hmem
+      obtain ⟨r, hr, hrp⟩ := mem_filterMap.1 hjp
+      cases r <;> simp [Rec.t2?] at hrp
+      obtain ⟨rfl, rfl⟩ := hrp
+      exact h _ hr rfl
+  | val i e =>
+    simp only [Task.keep, Task.tkey]
+    rw [decide_eq_true_iff]
+    simp only [restoredOf]
+    constructor
+    · intro h r hr hk
+      cases r <;> simp only [Rec.rkey, Prod.mk.injEq] at hk <;> try (exact absurd hk.1 (by decide))
+      obtain ⟨_, ⟨rfl, _⟩⟩ := hk
+      exact h (mem_map.2 ⟨_, mem_filterMap.2 ⟨_, hr, rfl⟩, rfl⟩)
+    · intro h hmem
+      obtain ⟨⟨j, p⟩, hjp, rfl⟩ := mem_map.1 hmem
+      obtain ⟨r, hr, hrp⟩ := mem_filterMap.1 hjp
+      cases r <;> simp [Rec.t3?] at hrp
+      obtain ⟨rfl, rfl⟩ := hrp
+      exact h _ hr rfl
+  | eval ei e li l vi v cp =>
+    simp only [Task.keep, Task.tkey]
+    rw [decide_eq_true_iff]
+    simp only [restoredOf]
+    constructor
+    · intro h r hr hk
+      cases r <;> simp only [Rec.rkey, Prod.mk.injEq] at hk <;> try (exact absurd hk.1 (by decide))
+      obtain ⟨_, rfl⟩ := hk
+      exact h (mem_map.2 ⟨_, mem_filterMap.2 ⟨_, hr, rfl⟩, rfl⟩)
+    · intro h hmem
+      obtain ⟨⟨k, rows⟩, hkr, hk⟩ := mem_map.1 hmem
+      obtain ⟨r, hr, hrp⟩ := mem_filterMap.1 hkr
+      cases r <;> simp [Rec.t4?] at hrp
+      obtain ⟨rfl, rfl⟩ := hrp
+      simp only at hk
+      subst hk
+      exact h _ hr rfl
+
+
+section resumed
+variable {S P Row : Type} (c : Comps S P Row) (cfg : Cfg) (picks : List Nat) (seed : Nat) (ts : List Triple)
+
+/-- the records the log holds when the tasks selected by `done` were finished before the interruption (a finished
+task that raised left none) -/
+def doneRecs (done : Task → Bool) : List (Rec P Row) :=
+  ((makeTasks .none ts).filter done).filterMap (pristineRec c seed)
+
+theorem filterMap_rec_eq (tasks : List Task) :
+    (tasks.map (pristineEv c seed)).filterMap Ev.rec? = tasks.filterMap (pristineRec c seed) := by
+  rw [filterMap_map]; rfl
+
+/-- which tasks a resumed run keeps: exactly those that left no record -/
+theorem keep_iff (done : Task → Bool) (old : List (Rec P Row)) (hold : old ~ doneRecs c seed ts done)
+    (t : Task) (ht : t ∈ makeTasks .none ts) :
+    Task.keep (restoredOf old) t = !(done t && (pristineRec c seed t).isSome) := by
+  rw [Bool.eq_iff_iff, keep_restoredOf]
+  simp only [Bool.not_eq_true', Bool.and_eq_false_imp, Option.isSome_eq_false_iff, Option.isNone_iff_eq_none]
+  constructor
+  · intro h hd
+    cases hr : pristineRec c seed t with
+    | none => rfl
+    | some r =>
+      have hmem : r ∈ old := hold.mem_iff.2 (mem_filterMap.2 ⟨t, mem_filter.2 ⟨ht, hd⟩, hr⟩)
+      exact absurd (pristineRec_rkey c seed t r hr) (h r hmem)
+  · intro h r hr hk
+    obtain ⟨t', ht', hrt'⟩ := mem_filterMap.1 (hold.mem_iff.1 hr)
+    obtain ⟨ht'm, hd'⟩ := mem_filter.1 ht'
+    have hk' := pristineRec_rkey c seed t' r hrt'
+    have : t' = t := tkey_inj ht'm ht (hk'.symm.trans hk)
+    subst this
+    rw [h hd'] at hrt'
+    cases hrt'
+
+/-- old records + the records of the resumed run = the records of the fresh run (as multisets) -/
+theorem resumed_records_perm (done : Task → Bool) (old : List (Rec P Row)) (hold : old ~ doneRecs c seed ts done) :
+    old ++ (runEventsOn c cfg picks seed (resumedTasks old ts)).1.filterMap Ev.rec? ~
+      (makeTasks .none ts).filterMap (pristineRec c seed) := by
+  let p : Task → Bool := fun t => done t && (pristineRec c seed t).isSome
+  have hnew : resumedTasks old ts = (makeTasks .none ts).filter (fun t => !p t) := by
+    rw [resumedTasks, makeTasks_restored]
+    apply filter_congr
+    intro t ht
+    exact keep_iff c seed ts done old hold t ht
+  have hA : AtMostOnce (resumedTasks old ts) := by
+    rw [hnew]; exact (makeTasks_atMostOnce ts).sublist filter_sublist
+  have h1 := (runEventsOn_perm c cfg picks seed _ hA).filterMap Ev.rec?
+  rw [filterMap_rec_eq] at h1
+  have h1' : filterMap (pristineRec c seed) (resumedTasks old ts) =
+      filterMap (pristineRec c seed) ((makeTasks .none ts).filter (fun t => !p t)) := by rw [hnew]
+  rw [h1'] at h1
+  have h2 : doneRecs c seed ts done = ((makeTasks .none ts).filter p).filterMap (pristineRec c seed) := by
+    unfold doneRecs
+    induction makeTasks .none ts with
+    | nil => rfl
+    | cons t tl ih =>
+      simp only [filter_cons, p]
+      cases hd : done t <;> cases hr : pristineRec c seed t <;> simp [hr, ih, p]
+  refine (hold.append h1).trans ?_
+  rw [h2, ← filterMap_append]
+  exact (filter_append_perm p (makeTasks .none ts)).filterMap _
+
+/-- `run_eq_spec_restored` -/
+theorem run_eq_spec_restored' (done : Task → Bool) (old : List (Rec P Row)) (hold : old ~ doneRecs c seed ts done) :
+    runResumed c cfg picks seed ts old = resultS c seed ts := by
+  unfold runResumed
+  apply result_of_records_perm c cfg [] seed ts
+  unfold runRecords
+  refine Perm.cons _ ?_
+  refine (resumed_records_perm c cfg picks seed ts done old hold).trans ?_
+  rw [← filterMap_rec_eq]
+  exact ((runEvents_perm c cfg [] seed ts).filterMap _).symm
+
+/-- nothing restored: the resumed run is the fresh run -/
+theorem runResumed_nil : runResumed c cfg picks seed ts [] = run c cfg picks seed ts := rfl
+
+end resumed
+
+
+section local_
+variable {S P Row : Type} (c : Comps S P Row) (cfg : Cfg) (picks : List Nat) (seed : Nat) (ts : List Triple)
+
+theorem mem_numberRows (kr : Key3 × List Row) (k : Key3) (i : Nat) (row : Row) :
+    (k, i, row) ∈ numberRows kr ↔ k = kr.1 ∧ (i, row) ∈ numbered kr.2 := by
+  simp only [numberRows, numbered, mem_map, Prod.mk.injEq]
+  constructor
+  · rintro ⟨ri, hri, rfl, rfl, rfl⟩; exact ⟨rfl, ri, hri, rfl, rfl⟩
+  · rintro ⟨rfl, ri, hri, rfl, rfl⟩; exact ⟨ri, hri, rfl, rfl, rfl⟩
+
+/-- the interactions table, row by row: exactly the numbered rows of the listed triples whose evaluation
+(alone, pristine learner) does not raise, under their first-appearance ids -/
+theorem mem_ints_iff' (k : Key3) (i : Nat) (row : Row) :
+    (k, i, row) ∈ (run c cfg picks seed ts).ints ↔
+      ∃ t ∈ ts, ∃ rows, evalS c seed t = .ok rows ∧ k = idKey ts t ∧ (i, row) ∈ numbered rows := by
+  rw [run_eq_spec']; unfold resultS result; simp only
+  rw [spec_t4, mem_flatMap]
+  constructor
+  · rintro ⟨kr, hkr, hx⟩
+    rw [mem_tableOf key3Lt_strictTotal _ _ (functional_okRows c seed ts)] at hkr
+    obtain ⟨t, ht, hok⟩ := mem_filterMap.1 hkr
+    simp only [okRows] at hok
+    cases hr : evalS c seed t with
+    | error _ => simp [hr] at hok
+    | ok rows =>
+      simp only [hr, Option.some.injEq] at hok
+      subst hok
+      obtain ⟨rfl, hmem⟩ := (mem_numberRows _ k i row).1 hx
+      exact ⟨t, ht, rows, hr, rfl, hmem⟩
+  · rintro ⟨t, ht, rows, hr, rfl, hmem⟩
+    refine ⟨(idKey ts t, rows), ?_, (mem_numberRows _ _ i row).2 ⟨rfl, hmem⟩⟩
+    rw [mem_tableOf key3Lt_strictTotal _ _ (functional_okRows c seed ts)]
+    exact mem_filterMap.2 ⟨t, ht, by simp [okRows, hr]⟩
+
+/-- `failure_local`: whatever set of triples fails, in every configuration and schedule the Result holds exactly
+the rows of the non-failing triples, each being the rows of its alone run (any configuration) -/
+theorem failure_local' (cfg' : Cfg) (picks' : List Nat) (k : Key3) (i : Nat) (row : Row) :
+    (k, i, row) ∈ (run c cfg picks seed ts).ints ↔
+      ∃ t ∈ ts, (∃ rows, evalS c seed t = .ok rows) ∧ k = idKey ts t ∧
+        (i, row) ∈ (run c cfg' picks' seed [t]).rowsOf (0, 0, 0) := by
+  rw [mem_ints_iff']
+  constructor
+  · rintro ⟨t, ht, rows, hr, hk, hmem⟩
+    refine ⟨t, ht, ⟨rows, hr⟩, hk, ?_⟩
+    have := rowsOf_run' c cfg' picks' seed [t] t (mem_singleton.2 rfl)
+    rw [idKey_singleton, hr] at this
+    rw [this]; exact hmem
+  · rintro ⟨t, ht, ⟨rows, hr⟩, hk, hmem⟩
+    have := rowsOf_run' c cfg' picks' seed [t] t (mem_singleton.2 rfl)
+    rw [idKey_singleton, hr] at this
+    rw [this] at hmem
+    exact ⟨t, ht, rows, hr, hk, hmem⟩
+
+end local_
+
 end Coba.C01
